@@ -190,9 +190,7 @@ func (u *Universe) addSpec(sf *SpecFile, path string) error {
 			return fmt.Errorf("%s: duplicate contract for %s", c.P, c.FuncName)
 		}
 		u.contracts[c.FuncName] = c
-		if c.Extern {
-			u.assumes = append(u.assumes, "assumed contract: extern "+c.FuncName)
-		}
+
 		if c.Trusted {
 			u.assumes = append(u.assumes, "trusted (body not verified): "+c.FuncName)
 		}
